@@ -141,10 +141,19 @@ class Scenario(object):
 
 
 def profile_table(ps):
-    """the raw table the harness hands to ambient.Profile, by name: {'z': nodes, <chemical>: column} — the reference for
-    ambient concentrations that does not go through the profile object's own name bookkeeping"""
+    """the raw table the harness hands to ambient.Profile, by name: {'z': nodes, 'temperature', 'salinity', 'pressure',
+    <chemical>: column} — the reference for ambient values that does not go through the profile object's own name ->
+    column bookkeeping.  The pressure column is the harness's own hydrostatic integration (explicit, from 1 atm at the
+    surface, density of the layer above)."""
+    from tamoc import seawater
     z = np.linspace(0., ps['H'], int(ps['n']))
-    tab = {'z': z}
+    T = ps['T_bot'] + ps['dT'] * np.exp(-z / ps['hT'])
+    Sal = ps['S0'] + ps['dS'] * (1. - np.exp(-z / ps['hS']))
+    P = np.zeros(len(z))
+    P[0] = 101325.0
+    for i in range(1, len(z)):
+        P[i] = P[i - 1] + float(seawater.density(T[i - 1], Sal[i - 1], P[i - 1])) * 9.81 * (z[i] - z[i - 1])
+    tab = {'z': z, 'temperature': T, 'salinity': Sal, 'pressure': P}
     for name, (c_top, c_bot) in ps.get('background', {}).items():
         tab[name] = c_top + (c_bot - c_top) * z / ps['H']
     return tab
@@ -160,17 +169,16 @@ def table_value(tab, z, name):
 
 
 def profile_from_spec(ps):
+    """real ambient.Profile built from the raw table of `profile_table` (all four z,T,S,P columns handed in).  Built with
+    err=0 and stabilize_profile=False so that the object interpolates exactly the nodes it was given (the generated
+    casts are stably stratified: T decreases and S increases with depth), which lets the harness compare the object's
+    look-ups with its own interpolation of the same table."""
     from tamoc import ambient
-    z = np.linspace(0., ps['H'], int(ps['n']))
-    T = ps['T_bot'] + ps['dT'] * np.exp(-z / ps['hT'])
-    S = ps['S0'] + ps['dS'] * (1. - np.exp(-z / ps['hS']))
-    cols = [z, T, S]
+    tab = profile_table(ps)
+    cols = [tab['z'], tab['temperature'], tab['salinity'], tab['pressure']]
     names, units = [], []
-    if ps.get('background'):
-        # with chemical columns the numpy adapter wants the pressure column as well
-        cols.append(ambient.compute_pressure(z, T, S, 0))
-    for name, (c_top, c_bot) in ps.get('background', {}).items():
-        cols.append(c_top + (c_bot - c_top) * z / ps['H'])
+    for name in ps.get('background', {}):
+        cols.append(tab[name])
         names.append(name)
         units.append('kg/m^3')
     data = np.vstack(cols).T
@@ -178,9 +186,10 @@ def profile_from_spec(ps):
         warnings.simplefilter('ignore')
         if names:
             return ambient.Profile(data, ztsp=['z', 'temperature', 'salinity', 'pressure'],
-                                   ztsp_units=['m', 'K', 'psu', 'Pa'], chem_names=names, chem_units=units)
+                                   ztsp_units=['m', 'K', 'psu', 'Pa'], chem_names=names, chem_units=units,
+                                   err=0., stabilize_profile=False)
         return ambient.Profile(data, ztsp=['z', 'temperature', 'salinity', 'pressure'],
-                               ztsp_units=['m', 'K', 'psu', 'Pa'])
+                               ztsp_units=['m', 'K', 'psu', 'Pa'], err=0., stabilize_profile=False)
 
 
 def particle_from_spec(profile, z0, s):
